@@ -242,6 +242,13 @@ def run(tier, seed):
             nsingle += 1
             if r1["rc"] == 0 and rr["rc"] != 0:
                 viol.append({"world": "after-complete-sync-%d" % i, "flags": flags, "why": "a complete sync (exit 0) with %s, then --verify-only exits %s" % (" ".join(flags), rr["rc"]), "stdout": rr["out"][-400:]})
+    # the translated state-file guards of main.rs under --verify-only (C15_verify_only_clears_no_state_file): when one can hold, the world
+    import c08
+    with vlib.Scratch() as sc3:
+        sg_hits = c08.stateguard_search(sc3, "verify_only")
+    for h_ in sg_hits:
+        if h_["modified"]:
+            viol.append({"world": "state-guard-" + h_["site"], "why": h_["why"], "cli": h_["cli"]})
     model = vlib.run_model(cases)
     for (i, mode, conflict, o, rr, ev, bs, bd, fl), m, case in zip(obs, model, cases):
         same = (o == m)
